@@ -4,6 +4,9 @@
 //! strategy, which is handed the engine state after every processed event.
 //!
 //! `system record --seed S --rounds N --out trace.ndjson`
+//! `system lifecycle [--scenarios tlc.ndjson] [--seeded N] [--driver f] --seed S --out trace.ndjson`
+//!      (the system's LIFECYCLE - start, commands, audit hand-over, shutdown / abort /
+//!       shutdown_after_backtest - for spec/SystemLifecycle.tla: see the second half of this file)
 //!
 //! The driver sends market data, open requests (market orders that fill, limit orders the mock
 //! exchange rejects, orders it cannot afford), cancel requests for ids in any state, and
@@ -210,11 +213,19 @@ fn key(inst: &Inst, cid: &str) -> OrderKey {
     OrderKey { exchange: inst.exi, instrument: inst.idx, strategy: StrategyId::new("sys"), cid: ClientOrderId::new(cid) }
 }
 
-#[tokio::main(flavor = "multi_thread", worker_threads = 3)]
-async fn main() {
+fn main() {
     let args = Args::parse();
+    if args.cmd == "lifecycle" {
+        // (its own runtimes: one per scenario, see `lifecycle_main`)
+        return lifecycle_main(&args);
+    }
+    // `record`: the runtime `#[tokio::main(flavor = "multi_thread", worker_threads = 3)]` used to build
+    tokio::runtime::Builder::new_multi_thread().worker_threads(3).enable_all().build().expect("runtime").block_on(record(args))
+}
+
+async fn record(args: Args) {
     if args.cmd != "record" {
-        usage("system record --seed S --rounds N --out f");
+        usage("system record --seed S --rounds N --out f | system lifecycle --scenarios f --seeded N --seed S --out f");
     }
     let mut rng = rng(args.u64("seed", 1));
     let rounds = args.usize("rounds", 60);
@@ -551,4 +562,615 @@ async fn main() {
     let nf = fresh.map(|f| f.finish()).unwrap_or(0);
     println!("{}", json!({"lines": n, "fresh_lines": nf, "audit_records": ticks, "strategy_views": views.len(), "opens": next_id, "link_notices": link_notices,
                             "commands_spanning_both_exchanges": mixed_batches, "commands": intended.len(), "close_positions_commands": closes, "links_killed": killed.len()}));
+}
+
+// =====================================================================================================
+// `system lifecycle` - the LIFECYCLE of the real system: start, commands, audit hand-over and the three
+// ways to stop (spec/SystemLifecycle.tla; validated by spec/Trace_SystemLifecycle.tla).
+//
+//   system lifecycle [--scenarios tlc.ndjson] [--seeded N] --seed S --out trace.ndjson
+//
+// Every scenario builds the REAL system through `SystemBuilder` (two mock exchanges, balances seeded,
+// EngineFeedMode Stream | Iterator, AuditMode Enabled | Disabled, TradingState at start) on its own
+// `current_thread` runtime - Stream mode under tokio's PAUSED clock, Iterator mode (the engine spins on a
+// blocking thread, which inhibits the paused clock's auto-advance) in real time - and drives it through the
+// System API at scripted points.  ONE chronological log (a mutex) takes a line
+//   * from the driver right BEFORE every API call (Cmd, TakeAudit, DropAudit, StopCall) and after the stop
+//     call has returned (StopRet: what came back, which tasks have ended, the audit records received),
+//   * from the market source whenever the forwarder takes an item (Yield k) or finds it ended (SrcEnd) -
+//     the forwarder sends the item into the feed within the same poll and the driver lives on the same
+//     thread, so that line is the moment the item enters the feed,
+//   * from the ENGINE whenever it starts processing an event (Proc label): the engine's clock - the first
+//     thing `Engine::process` consults for every event - is a recording wrapper around HistoricalClock.
+// Account items are produced by the real mock exchanges; when they enter the feed is not observable.
+// =====================================================================================================
+use barter::{
+    engine::{Processor, clock::EngineClock, execution_tx::MultiExchangeTxMap},
+    execution::request::ExecutionRequest,
+};
+use futures::{FutureExt, Stream, StreamExt};
+
+type Ev = EngineEvent<DataKind>;
+type MItem = MarketStreamEvent<InstrumentIndex, DataKind>;
+
+#[derive(Default)]
+struct LcShared {
+    lines: Vec<Value>,
+    /// every event the engine processed (clock hook), for the twin engine
+    events: Vec<Ev>,
+    labels: Vec<String>,
+    /// (debug rendering of the command as handed to the System API, its label), in hand-over order
+    intended: Vec<(String, String)>,
+    used: Vec<bool>,
+    yields: usize,
+}
+
+/// the label of a processed / audited event: market items carry their own (trade id m<k>), commands are
+/// recognised by CONTENT (the k-th unmatched command handed over with that rendering), "c?" otherwise
+fn lc_label(ev: &Ev, intended: &[(String, String)], used: &mut Vec<bool>) -> String {
+    used.resize(intended.len(), false);
+    let mut cmd = |dbg: String| {
+        for (j, (d, l)) in intended.iter().enumerate() {
+            if !used[j] && *d == dbg {
+                used[j] = true;
+                return l.clone();
+            }
+        }
+        "c?".to_string()
+    };
+    match ev {
+        EngineEvent::Shutdown(_) => "sd".into(),
+        EngineEvent::Command(c) => cmd(format!("{c:?}")),
+        EngineEvent::TradingStateUpdate(t) => cmd(format!("{t:?}")),
+        EngineEvent::Account(AccountStreamEvent::Item(_)) => "acct".into(),
+        EngineEvent::Account(AccountStreamEvent::Reconnecting(_)) => "notice".into(),
+        EngineEvent::Market(MarketStreamEvent::Item(m)) => match &m.kind {
+            DataKind::Trade(t) => t.id.clone(),
+            _ => "m?".into(),
+        },
+        EngineEvent::Market(MarketStreamEvent::Reconnecting(_)) => "mnotice".into(),
+    }
+}
+
+/// HistoricalClock that records every event the engine hands it (Engine::process calls the clock first)
+#[derive(Clone)]
+struct RecClock {
+    inner: HistoricalClock,
+    shared: Option<Arc<Mutex<LcShared>>>,
+}
+impl std::fmt::Debug for RecClock {
+    fn fmt(&self, f: &mut std::fmt::Formatter<'_>) -> std::fmt::Result {
+        write!(f, "RecClock({:?})", self.inner)
+    }
+}
+impl EngineClock for RecClock {
+    fn time(&self) -> chrono::DateTime<chrono::Utc> {
+        self.inner.time()
+    }
+}
+impl Processor<&Ev> for RecClock {
+    type Audit = ();
+    fn process(&mut self, event: &Ev) -> Self::Audit {
+        if let Some(sh) = &self.shared {
+            let mut g = sh.lock();
+            let g = &mut *g;
+            let label = lc_label(event, &g.intended, &mut g.used);
+            g.lines.push(json!({"a": "Proc", "ev": label}));
+            g.events.push(event.clone());
+            g.labels.push(label);
+        }
+        self.inner.process(event)
+    }
+}
+
+/// no algo orders; close-position orders get ids derived from the instrument (deterministic: the twin engine
+/// must generate the same requests)
+#[derive(Clone)]
+struct Lc {
+    id: StrategyId,
+}
+impl AlgoStrategy for Lc {
+    type State = State;
+    fn generate_algo_orders(
+        &self,
+        _: &Self::State,
+    ) -> (
+        impl IntoIterator<Item = OrderRequestCancel<ExchangeIndex, InstrumentIndex>>,
+        impl IntoIterator<Item = OrderRequestOpen<ExchangeIndex, InstrumentIndex>>,
+    ) {
+        (std::iter::empty(), std::iter::empty())
+    }
+}
+impl ClosePositionsStrategy for Lc {
+    type State = State;
+    fn close_positions_requests<'a>(
+        &'a self,
+        state: &'a Self::State,
+        filter: &'a InstrumentFilter<ExchangeIndex, AssetIndex, InstrumentIndex>,
+    ) -> (
+        impl IntoIterator<Item = OrderRequestCancel<ExchangeIndex, InstrumentIndex>> + 'a,
+        impl IntoIterator<Item = OrderRequestOpen<ExchangeIndex, InstrumentIndex>> + 'a,
+    )
+    where
+        ExchangeIndex: 'a,
+        AssetIndex: 'a,
+        InstrumentIndex: 'a,
+    {
+        close_open_positions_with_market_orders(&self.id, state, filter, |st| ClientOrderId::new(format!("z{}", st.key.index())))
+    }
+}
+impl<Clock, ExecutionTxs, Risk> OnDisconnectStrategy<Clock, State, ExecutionTxs, Risk> for Lc {
+    type OnDisconnect = ();
+    fn on_disconnect(_: &mut Engine<Clock, State, ExecutionTxs, Self, Risk>, _: ExchangeId) -> Self::OnDisconnect {}
+}
+impl<Clock, ExecutionTxs, Risk> OnTradingDisabled<Clock, State, ExecutionTxs, Risk> for Lc {
+    type OnTradingDisabled = ();
+    fn on_trading_disabled(_: &mut Engine<Clock, State, ExecutionTxs, Self, Risk>) -> Self::OnTradingDisabled {}
+}
+
+/// the market source as the forwarder sees it: a channel the driver / a source task feeds; logs the moment
+/// the forwarder takes an item or finds the source ended
+struct LoggedSource {
+    rx: tokio_stream::wrappers::UnboundedReceiverStream<MItem>,
+    shared: Arc<Mutex<LcShared>>,
+    ended: bool,
+}
+impl Stream for LoggedSource {
+    type Item = MItem;
+    fn poll_next(mut self: std::pin::Pin<&mut Self>, cx: &mut std::task::Context<'_>) -> std::task::Poll<Option<MItem>> {
+        match self.rx.poll_next_unpin(cx) {
+            std::task::Poll::Ready(Some(item)) => {
+                let mut g = self.shared.lock();
+                g.yields += 1;
+                let k = g.yields;
+                g.lines.push(json!({"a": "Yield", "k": k}));
+                drop(g);
+                std::task::Poll::Ready(Some(item))
+            }
+            std::task::Poll::Ready(None) => {
+                if !self.ended {
+                    self.ended = true;
+                    self.shared.lock().lines.push(json!({"a": "SrcEnd"}));
+                }
+                std::task::Poll::Ready(None)
+            }
+            std::task::Poll::Pending => std::task::Poll::Pending,
+        }
+    }
+}
+
+/// the feeding side of the market source, shared by the driver and the source tasks
+#[derive(Clone)]
+struct SrcHandle {
+    tx: Arc<Mutex<Option<tokio::sync::mpsc::UnboundedSender<MItem>>>>,
+    pushed: Arc<std::sync::atomic::AtomicUsize>,
+    insts: Arc<Vec<Inst>>,
+}
+impl SrcHandle {
+    fn item(&self) {
+        if let Some(tx) = self.tx.lock().as_ref() {
+            let k = self.pushed.fetch_add(1, std::sync::atomic::Ordering::SeqCst) + 1;
+            let inst = &self.insts[(k - 1) % self.insts.len()];
+            let _ = tx.send(MarketStreamEvent::Item(MarketEvent { time_exchange: time(k as i64), time_received: time(k as i64), exchange: inst.ex, instrument: inst.idx,
+                kind: DataKind::Trade(PublicTrade { id: format!("m{k}"), price: inst.price as f64, amount: 1.0, side: Side::Buy }) }));
+        }
+    }
+    fn end(&self) {
+        self.tx.lock().take();
+    }
+    async fn run_plan(self, plan: Vec<Value>) {
+        for p in plan {
+            let ms = p["ms"].as_u64().unwrap_or(0);
+            if ms > 0 { tokio::time::sleep(Duration::from_millis(ms)).await } else { tokio::task::yield_now().await }
+            if s(&p, "a") == "Item" { self.item() } else { self.end() }
+        }
+    }
+}
+
+fn lc_differing_component(a: &State, b: &State) -> &'static str {
+    if a.trading != b.trading {
+        "trading state"
+    } else if a.connectivity != b.connectivity {
+        "connectivity"
+    } else if a.assets != b.assets {
+        "balances"
+    } else if a.instruments.0.values().zip(b.instruments.0.values()).any(|(x, y)| x.position != y.position) {
+        "positions"
+    } else if a.instruments.0.values().zip(b.instruments.0.values()).any(|(x, y)| x.data != y.data) {
+        "market data"
+    } else if a.instruments.0.values().zip(b.instruments.0.values()).any(|(x, y)| x.orders != y.orders) {
+        "orders"
+    } else if a == b {
+        ""
+    } else {
+        "other"
+    }
+}
+
+const LC_KINDS: [&str; 5] = ["open", "cancel", "cancel_orders", "close", "trading"];
+
+/// a TLC schedule (Gen_SystemLifecycle) -> driver steps: what the specification did after the stop call on
+/// the source side (Item / End) becomes a source task started right before the call
+fn lc_from_tlc(v: &Value, rng: &mut rand::rngs::StdRng) -> Value {
+    let mut steps: Vec<Value> = vec![];
+    let mut after: Vec<Value> = vec![];
+    let mut stop: Option<String> = None;
+    let mut ended = false;
+    for st in v["steps"].as_array().cloned().unwrap_or_default() {
+        let a = s(&st, "a").to_string();
+        if stop.is_none() {
+            match a.as_str() {
+                "Cmd" => steps.push(json!({"a": "Cmd", "c": s(&st, "x"), "kind": LC_KINDS[rng.random_range(0..LC_KINDS.len())]})),
+                "Stop" => stop = Some(s(&st, "x").to_string()),
+                "End" => { ended = true; steps.push(json!({"a": "End"})) }
+                _ => steps.push(json!({"a": a})),
+            }
+        } else if a == "Item" || a == "End" {
+            ended |= a == "End";
+            after.push(json!({"a": a, "ms": rng.random_range(0..3)}));
+        }
+    }
+    let kind = stop.unwrap_or_else(|| "shutdown".into());
+    if kind == "backtest" && !ended {
+        after.push(json!({"a": "End", "ms": 1}));
+    }
+    if !after.is_empty() {
+        steps.push(json!({"a": "Src", "plan": after}));
+    }
+    steps.push(json!({"a": "Stop", "kind": kind}));
+    json!({"origin": "tlc", "mode": v["mode"], "audit": v["audit"], "trading": if rng.random_bool(0.5) { "enabled" } else { "disabled" }, "steps": steps})
+}
+
+/// seeded free-running scenarios: a SLOW market source (items separated by sleeps), commands, audit
+/// hand-over and the stop call at random (virtual / real) times
+fn lc_seeded(rng: &mut rand::rngs::StdRng, n: usize) -> Vec<Value> {
+    (0..n).map(|i| {
+        if i == 0 {
+            // a fixed scenario (also the subject of the corrupted-trace self-test): slow source, two commands still in
+            // the feed, both take_audit outcomes, shutdown_after_backtest called while two items are still to come
+            return json!({"origin": "canonical", "mode": "stream", "audit": "on", "trading": "disabled", "steps": [
+                {"a": "Src", "plan": [{"a": "Item", "ms": 5}, {"a": "Item", "ms": 5}, {"a": "Item", "ms": 5}, {"a": "End", "ms": 5}]},
+                {"a": "Take"}, {"a": "Pause", "ms": 4}, {"a": "Cmd", "c": "c1", "kind": "trading"}, {"a": "Pause", "ms": 3},
+                {"a": "Cmd", "c": "c2", "kind": "cancel_orders"}, {"a": "Take"}, {"a": "Cmd", "c": "c3", "kind": "close"},
+                {"a": "Stop", "kind": "backtest"}]});
+        }
+        if i == 1 {
+            // a second fixed scenario: Iterator mode, an order that is answered by the exchange, the audit receiver taken
+            // and DROPPED while the engine keeps running, then the back-test stop
+            return json!({"origin": "fixed", "mode": "iter", "audit": "on", "trading": "enabled", "steps": [
+                {"a": "Src", "plan": [{"a": "Item", "ms": 2}, {"a": "Item", "ms": 2}, {"a": "End", "ms": 2}]},
+                {"a": "Take"}, {"a": "Cmd", "c": "c1", "kind": "open"}, {"a": "Pause", "ms": 3}, {"a": "Drop"},
+                {"a": "Cmd", "c": "c2", "kind": "cancel"}, {"a": "Pause", "ms": 2}, {"a": "Cmd", "c": "c3", "kind": "trading"},
+                {"a": "Stop", "kind": "backtest"}]});
+        }
+        let kind = ["backtest", "shutdown", "abort"][(i / 4) % 3];
+        let gap = [2u64, 5, 10][rng.random_range(0..3)];
+        let items = rng.random_range(if kind == "backtest" { 1..=3 } else { 0..=3 });
+        let mut plan: Vec<Value> = (0..items).map(|j| json!({"a": "Item", "ms": if j == 0 { rng.random_range(0..=gap) } else { gap }})).collect();
+        if kind == "backtest" || rng.random_bool(0.5) {
+            plan.push(json!({"a": "End", "ms": rng.random_range(0..=gap)}));
+        }
+        let mut steps = vec![json!({"a": "Src", "plan": plan})];
+        let mut cmds: Vec<Value> = (1..=rng.random_range(0..=3usize)).map(|j| json!({"a": "Cmd", "c": format!("c{j}"), "kind": LC_KINDS[rng.random_range(0..LC_KINDS.len())]})).collect();
+        match rng.random_range(0..4) {
+            0 => {}
+            1 => cmds.insert(rng.random_range(0..=cmds.len()), json!({"a": "Take"})),
+            2 => {
+                let at = rng.random_range(0..=cmds.len());
+                cmds.insert(at, json!({"a": "Take"}));
+                cmds.insert(rng.random_range(at + 1..=cmds.len()), json!({"a": "Drop"}));
+            }
+            _ => {
+                let at = rng.random_range(0..=cmds.len());
+                cmds.insert(at, json!({"a": "Take"}));
+                cmds.insert(rng.random_range(at + 1..=cmds.len()), json!({"a": "Take"}));
+            }
+        }
+        for c in cmds {
+            if rng.random_bool(0.6) {
+                steps.push(json!({"a": "Pause", "ms": rng.random_range(0..=2 * gap)}));
+            }
+            steps.push(c);
+        }
+        // the stop call: often while the source is still yielding (the drain must wait / the live source is cut)
+        if rng.random_bool(0.7) {
+            steps.push(json!({"a": "Pause", "ms": rng.random_range(0..=3 * gap)}));
+        }
+        steps.push(json!({"a": "Stop", "kind": kind}));
+        json!({"origin": "seeded", "mode": if i % 2 == 0 { "stream" } else { "iter" }, "audit": if (i / 2) % 2 == 0 { "on" } else { "off" },
+               "trading": if rng.random_bool(0.5) { "enabled" } else { "disabled" }, "steps": steps})
+    }).collect()
+}
+
+async fn lc_run(scn: &Value, run: usize) -> Vec<Value> {
+    let stream_mode = s(scn, "mode") == "stream";
+    let audit_on = s(scn, "audit") == "on";
+    let trading = if s(scn, "trading") == "enabled" { TradingState::Enabled } else { TradingState::Disabled };
+    let shared = Arc::new(Mutex::new(LcShared::default()));
+    let log = |v: Value| shared.lock().lines.push(v);
+    let instruments = instruments();
+    let insts = Arc::new(insts(&instruments));
+    let (mtx, mrx) = tokio::sync::mpsc::unbounded_channel::<MItem>();
+    let src = SrcHandle { tx: Arc::new(Mutex::new(Some(mtx))), pushed: Arc::new(Default::default()), insts: insts.clone() };
+    let source = LoggedSource { rx: tokio_stream::wrappers::UnboundedReceiverStream::new(mrx), shared: shared.clone(), ended: false };
+    let clock = RecClock { inner: HistoricalClock::new(time(0)), shared: Some(shared.clone()) };
+    log(json!({"a": "Start", "run": run, "origin": scn["origin"], "mode": scn["mode"], "audit": scn["audit"], "trading": scn["trading"], "scn": scn}));
+    let sys_args = SystemArgs::new(
+        &instruments,
+        vec![ExecutionConfig::Mock(mock_config(0, 1)), ExecutionConfig::Mock(mock_config(1, 2))],
+        clock,
+        Lc { id: StrategyId::new("sys") },
+        DefaultRiskManager::<State>::default(),
+        source,
+        DefaultGlobalData::default(),
+        DefaultInstrumentMarketData::default,
+    );
+    let build = match SystemBuilder::new(sys_args)
+        .engine_feed_mode(if stream_mode { EngineFeedMode::Stream } else { EngineFeedMode::Iterator })
+        .audit_mode(if audit_on { AuditMode::Enabled } else { AuditMode::Disabled })
+        .trading_state(trading)
+        .balances((0..2).flat_map(|x| funds(x).into_iter().map(move |(a, v)| (EXCHANGES[x], a, Balance { total: dec(v), free: dec(v) }))))
+        .build::<EngineEvent, _>()
+    {
+        Ok(b) => b,
+        Err(e) => usage(&format!("system build: {e:?}")),
+    };
+    // the engine state BEFORE anything is processed: the twin starts from it, the audit snapshot must equal it
+    let state0: State = build.engine.state.clone();
+    let mut system = match build.init_with_runtime(tokio::runtime::Handle::current()).await {
+        Ok(s) => s,
+        Err(e) => usage(&format!("system init: {e:?}")),
+    };
+    let h_engine = system.engine.abort_handle();
+    let h_market = system.handles.market_to_engine.abort_handle();
+    let h_account = system.handles.account_to_engine.abort_handle();
+    let h_exec: Vec<Vec<tokio::task::AbortHandle>> = (0..EXCHANGES.len()).map(|x| {
+        let e = &system.handles.execution;
+        vec![e.mock_exchanges[x].abort_handle(), e.managers[x].abort_handle(), e.account_to_engines[x].abort_handle()]
+    }).collect();
+
+    let breathe = || async move {
+        if stream_mode {
+            for _ in 0..3 { tokio::task::yield_now().await }
+        } else {
+            tokio::time::sleep(Duration::from_micros(300)).await
+        }
+    };
+    let mut held = None;
+    let mut helpers: Vec<tokio::task::JoinHandle<()>> = vec![];
+    let mut stop_kind = "shutdown".to_string();
+    let mut api_panic: Option<String> = None;
+    for st in scn["steps"].as_array().cloned().unwrap_or_default() {
+        match s(&st, "a") {
+            "Item" => {
+                src.item();
+                // let the forwarder take it (bounded wait; whatever really happened is what the log shows)
+                let want = src.pushed.load(std::sync::atomic::Ordering::SeqCst);
+                for _ in 0..40 {
+                    if shared.lock().yields >= want { break }
+                    breathe().await;
+                }
+            }
+            "End" => { src.end(); breathe().await }
+            "Src" => helpers.push(tokio::spawn(src.clone().run_plan(st["plan"].as_array().cloned().unwrap_or_default()))),
+            "Run" => breathe().await,
+            "Pause" => tokio::time::sleep(Duration::from_millis(st["ms"].as_u64().unwrap_or(1))).await,
+            "Cmd" if api_panic.is_none() => {
+                let label = s(&st, "c").to_string();
+                let j: usize = label[1..].parse().unwrap_or(1);
+                let inst = &insts[j % insts.len()];
+                let cid = format!("L{j}");
+                let filter = || InstrumentFilter::instruments([inst.idx]);
+                let open = || OneOrMany::One(OrderRequestOpen { key: key(inst, &cid), state: RequestOpen { side: Side::Buy, price: dec(inst.price), quantity: dec(1), kind: OrderKind::Market, time_in_force: TimeInForce::ImmediateOrCancel } });
+                let cancel = || OneOrMany::One(OrderRequestCancel { key: key(inst, &cid), state: RequestCancel { id: None } });
+                let ts = if j % 2 == 1 { TradingState::Disabled } else { TradingState::Enabled };
+                let kind = s(&st, "kind");
+                let rendering = match kind {
+                    "open" => format!("{:?}", Cmd::SendOpenRequests(open())),
+                    "cancel" => format!("{:?}", Cmd::SendCancelRequests(cancel())),
+                    "cancel_orders" => format!("{:?}", Cmd::CancelOrders(filter())),
+                    "close" => format!("{:?}", Cmd::ClosePositions(filter())),
+                    _ => format!("{ts:?}"),
+                };
+                {
+                    let mut g = shared.lock();
+                    g.intended.push((rendering, label.clone()));
+                    g.lines.push(json!({"a": "Cmd", "c": label, "kind": kind}));
+                }
+                let r = catch(|| match kind {
+                    "open" => system.send_open_requests(open()),
+                    "cancel" => system.send_cancel_requests(cancel()),
+                    "cancel_orders" => system.cancel_orders(filter()),
+                    "close" => system.close_positions(filter()),
+                    _ => system.trading_state(ts),
+                });
+                if let Err(p) = r {
+                    api_panic = Some(p);
+                }
+            }
+            "Take" => {
+                let got = system.take_audit();
+                let (snap_seq, snap_eq) = match &got {
+                    Some(a) => (a.snapshot.context.sequence.value() as i64, a.snapshot.event == state0),
+                    None => (-1, true),
+                };
+                log(json!({"a": "TakeAudit", "some": got.is_some(), "snap_seq": snap_seq, "snap_eq": snap_eq}));
+                if got.is_some() {
+                    held = got;
+                }
+            }
+            "Drop" => {
+                if held.take().is_some() {
+                    log(json!({"a": "DropAudit"}));
+                }
+            }
+            "Stop" => stop_kind = s(&st, "kind").to_string(),
+            _ => {}
+        }
+    }
+    if let Some(p) = api_panic {
+        log(json!({"a": "Anomaly", "tag": "api_panicked", "anomaly": format!("a System API call panicked: {p} (the engine task had ended although no stop was requested)")}));
+    }
+    // ---- the stop call
+    log(json!({"a": "StopCall", "kind": stop_kind}));
+    let kind = stop_kind.clone();
+    let fut = async move {
+        match kind.as_str() {
+            "shutdown" => system.shutdown().await,
+            "abort" => system.abort().await,
+            _ => system.shutdown_after_backtest().await,
+        }
+    };
+    // (Stream mode: virtual seconds - a deadlocked system lets the paused clock jump to the deadline at once)
+    let limit = Duration::from_secs(if stream_mode { 120 } else { 10 });
+    let r = tokio::time::timeout(limit, std::panic::AssertUnwindSafe(fut).catch_unwind()).await;
+    let (engine, final_audit) = match r {
+        Err(_) => {
+            log(json!({"a": "Anomaly", "tag": "stop_hangs", "anomaly": format!("{stop_kind}() did not return within {} s ({})", limit.as_secs(), if stream_mode { "virtual" } else { "wall clock" })}));
+            return finish(&shared, helpers);
+        }
+        Ok(Err(p)) => {
+            let msg = p.downcast_ref::<String>().cloned().or_else(|| p.downcast_ref::<&str>().map(|s| s.to_string())).unwrap_or_else(|| "panic".into());
+            log(json!({"a": "Anomaly", "tag": "stop_failed", "anomaly": format!("{stop_kind}() panicked: {msg}")}));
+            return finish(&shared, helpers);
+        }
+        Ok(Ok(Err(e))) => {
+            log(json!({"a": "Anomaly", "tag": "stop_failed", "anomaly": format!("{stop_kind}() returned an error: {e}")}));
+            return finish(&shared, helpers);
+        }
+        Ok(Ok(Ok(x))) => x,
+    };
+    // ---- what has ended: a cancelled task completes the next time the runtime polls it
+    for _ in 0..5 { tokio::task::yield_now().await }
+    tokio::time::sleep(Duration::from_millis(2)).await;
+    for _ in 0..5 { tokio::task::yield_now().await }
+    let mut tasks = serde_json::Map::new();
+    tasks.insert("engine".into(), json!(h_engine.is_finished()));
+    tasks.insert("marketFwd".into(), json!(h_market.is_finished()));
+    tasks.insert("accountFwd".into(), json!(h_account.is_finished()));
+    for (x, hs) in h_exec.iter().enumerate() {
+        tasks.insert(EXCHANGES[x].as_str().to_string(), json!(hs.iter().all(|h| h.is_finished())));
+    }
+    // ---- the audit records received (if the receiver is still held)
+    let (intended, labels, events) = {
+        let g = shared.lock();
+        (g.intended.clone(), g.labels.clone(), g.events.clone())
+    };
+    let holds = held.is_some();
+    let mut ticks: Vec<Value> = vec![];
+    if let Some(a) = held.as_mut() {
+        let mut used = vec![];
+        while let Ok(t) = a.updates.rx.try_recv() {
+            let ev = match &t.event {
+                EngineAudit::Process(p) => lc_label(&p.event, &intended, &mut used),
+                EngineAudit::FeedEnded => "feedEnded".to_string(),
+            };
+            ticks.push(json!({"seq": t.context.sequence.value(), "ev": ev}));
+        }
+    }
+    let fin = match &final_audit {
+        EngineAudit::Process(p) => {
+            let mut used = vec![true; intended.len()];
+            let l = lc_label(&p.event, &intended, &mut used);
+            if l == "sd" { l } else { "other".to_string() }
+        }
+        EngineAudit::FeedEnded => "feedEnded".to_string(),
+    };
+    // ---- the twin: a second real engine started from the same state, fed the same events synchronously
+    let sinks: Vec<_> = EXCHANGES.iter().map(|_| barter_integration::channel::mpsc_unbounded::<ExecutionRequest>()).collect();
+    let txs: MultiExchangeTxMap = EXCHANGES.iter().zip(sinks.iter()).map(|(e, (tx, _))| (*e, Some(tx.clone()))).collect();
+    let mut twin = Engine::new(HistoricalClock::new(time(0)), state0.clone(), txs, Lc { id: StrategyId::new("sys") }, DefaultRiskManager::<State>::default());
+    let twin_ok = catch(|| {
+        for e in events.iter() {
+            let _ = twin.process(e.clone());
+        }
+    });
+    let diff = match twin_ok {
+        Ok(()) => lc_differing_component(&engine.state, &twin.state).to_string(),
+        Err(p) => format!("twin panicked: {p}"),
+    };
+    log(json!({"a": "StopRet", "kind": stop_kind, "final": fin, "tasks": tasks, "log": labels, "seq": engine.meta.sequence.value(),
+               "twin": diff.is_empty(), "twin_diff": diff, "holds": holds, "ticks": ticks}));
+    finish(&shared, helpers)
+}
+
+fn finish(shared: &Arc<Mutex<LcShared>>, helpers: Vec<tokio::task::JoinHandle<()>>) -> Vec<Value> {
+    for h in helpers {
+        h.abort();
+    }
+    std::mem::take(&mut shared.lock().lines)
+}
+
+fn lifecycle_main(args: &Args) {
+    let seed = args.u64("seed", 1);
+    let mut rng = rng(seed);
+    let mut scns: Vec<Value> = vec![];
+    if let Some(p) = args.get("scenarios") {
+        scns.extend(read_ndjson(p).iter().map(|v| lc_from_tlc(v, &mut rng)));
+    }
+    scns.extend(lc_seeded(&mut rng, args.usize("seeded", 0)));
+    // (replays: scenarios already in driver format)
+    if let Some(p) = args.get("driver") {
+        scns.extend(read_ndjson(p));
+    }
+    let mut out = Out::create(args.req("out"));
+    // a panic inside the system under test is data, reported through the log - not through stderr
+    std::panic::set_hook(Box::new(|_| {}));
+    let mut stats: std::collections::BTreeMap<String, usize> = Default::default();
+    let mut hangs = 0usize;
+    for (i, scn) in scns.iter().enumerate() {
+        let stream_mode = s(scn, "mode") == "stream";
+        // a stop call that hangs costs its wall-clock limit in Iterator mode: two such runs are evidence enough
+        if !stream_mode && hangs >= 2 {
+            *stats.entry("iterator_runs_skipped_after_two_hanging_stop_calls".into()).or_default() += 1;
+            continue;
+        }
+        let rt = tokio::runtime::Builder::new_current_thread().enable_all().start_paused(stream_mode).build().expect("runtime");
+        let lines = rt.block_on(lc_run(scn, i));
+        rt.shutdown_timeout(Duration::from_millis(50));
+        let stop = scn["steps"].as_array().and_then(|a| a.last()).map(|l| s(l, "kind").to_string()).unwrap_or_default();
+        *stats.entry(format!("runs_{}_{}_audit_{}", s(scn, "mode"), stop, s(scn, "audit"))).or_default() += 1;
+        for l in lines.iter() {
+            match s(l, "a") {
+                "Proc" => *stats.entry(format!("processed_{}", match s(l, "ev") { "acct" => "account_items", "sd" => "shutdown", x if x.starts_with('m') => "market_items", _ => "commands" })).or_default() += 1,
+                "Yield" => *stats.entry("items_taken_by_the_market_forwarder".into()).or_default() += 1,
+                "TakeAudit" => *stats.entry(format!("take_audit_{}", if b(l, "some") { "some" } else { "none" })).or_default() += 1,
+                "DropAudit" => *stats.entry("audit_receiver_dropped_while_running".into()).or_default() += 1,
+                "StopRet" => {
+                    *stats.entry("stop_calls_returned".into()).or_default() += 1;
+                    *stats.entry("audit_records_received".into()).or_default() += l["ticks"].as_array().map(|a| a.len()).unwrap_or(0);
+                    if b(l, "twin") { *stats.entry("returned_engines_equal_to_their_twin".into()).or_default() += 1 }
+                }
+                "Anomaly" => {
+                    *stats.entry("anomalies".into()).or_default() += 1;
+                    if !stream_mode && l["tag"] == "stop_hangs" { hangs += 1 }
+                }
+                _ => {}
+            }
+            out.line(l);
+        }
+        // the drain is discriminating when the stop call was made while the source still had items to yield
+        let call = lines.iter().position(|l| s(l, "a") == "StopCall");
+        if let Some(c) = call {
+            if stop == "backtest" && lines[c..].iter().any(|l| s(l, "a") == "Yield") {
+                *stats.entry("backtest_stops_called_before_the_source_was_drained".into()).or_default() += 1;
+            }
+            if stop != "backtest" && lines[c..].iter().any(|l| s(l, "a") == "Yield") {
+                *stats.entry("items_yielded_after_a_shutdown_or_abort_call".into()).or_default() += 1;
+            }
+            if lines[..c].iter().filter(|l| s(l, "a") == "Cmd").count() > lines[..c].iter().filter(|l| s(l, "a") == "Proc" && s(l, "ev").starts_with('c')).count() {
+                *stats.entry("stops_called_with_commands_still_in_the_feed".into()).or_default() += 1;
+            }
+        }
+    }
+    let n = out.finish();
+    let mut summary = serde_json::Map::new();
+    summary.insert("lines".into(), json!(n));
+    summary.insert("scenarios".into(), json!(scns.len()));
+    for (k, v) in stats {
+        summary.insert(k, json!(v));
+    }
+    println!("{}", Value::Object(summary));
+    // (an engine left spinning on its blocking thread by a failed stop must not keep the process alive)
+    std::process::exit(0);
 }
